@@ -92,9 +92,19 @@ def unordered(t):
 
 def run(c):
     c.assumptions += ASSUME
-    tstats = schematr.write_if_changed()
-    c.coverage['schema_translation'] = {k: tstats[k] for k in ('files', 'definitions', 'store_entries', 'dangling_refs', 'changed')}
+    # the schema half of the model is regenerated from /repo; if the schema files can no longer be translated
+    # (a keyword, pattern or shape the interpreter does not model) the model is not compared with anything: the
+    # obligation is broken and only the implementation-side search runs
+    model_ok = True
+    try:
+        tstats = schematr.write_if_changed()
+        c.coverage['schema_translation'] = {k: tstats[k] for k in ('files', 'definitions', 'store_entries', 'dangling_refs', 'changed')}
+    except schematr.Untranslatable as ex:
+        model_ok = False
+        c.coverage['schema_translation'] = {'error': f'schema files of /repo cannot be translated: {ex}'}
     ob = c.proof_obligations()
+    if not model_ok:
+        ob = dict(ob, ok=False, failures=[c.coverage['schema_translation']['error']] + list(ob['failures']))
     thorough = c.tier == 'thorough'
     work = common.scratch()
     # witnesses first: repaired findings must stay repaired, the recorded one is replayed
@@ -119,7 +129,7 @@ def run(c):
     # A re-expressed mutant counts only if the reference expansion (Lean expand3, the patcher proved in
     # Props/C12) gives it the same effective tree as the plain mutant: re-expression can erase a fault.
     elines = [{'op': 'expand3', 'doc': r['tree'], 'dirs': r['loaded'] + [pk3], 'ignore': False} for r in results]
-    eout = common.drv_run(elines)
+    eout = common.drv_run(elines)       # expansion model only (no schema inside): usable even if translation failed
     plain_eff = {}
     for r, line in zip(results, eout):
         m = hfront.parse_model(line)
@@ -173,6 +183,10 @@ def run(c):
             else:
                 st['mutants_rejected'] += 1
         # accept/reject agreement with the model (both directions)
+        if not model_ok:
+            for _sid in r['stages']:
+                k += 1
+            continue
         if model == 'unknown':
             st['model_unknown'] += 1
         elif (model == 'accept') != (v[0] == 'accept') or (model == 'crash') != (v[0] == 'crash'):
